@@ -409,7 +409,11 @@ impl PCheck for C13 {
         }
     }
     fn starts(&self, hay: &str) -> Vec<usize> {
-        (0..=hay.len()).collect()
+        // every byte offset, and the out-of-range starts both entry points document as "no matches"
+        let mut v: Vec<usize> = (0..=hay.len()).collect();
+        v.push(hay.len() + 1);
+        v.push(usize::MAX);
+        v
     }
     fn case(&self, p: &Self::Prepared, hay: &str, start: usize, mut rep: Option<&mut Report>) -> Verdict {
         if !hay.is_ascii() {
@@ -430,7 +434,17 @@ impl PCheck for C13 {
 }
 
 pub fn run_c13(cfg: &Cfg, rep: &mut Report) {
-    let spec = stream_spec(cfg, 15_000, 400_000, 3, 4, tweak_ascii);
+    let mut spec = stream_spec(cfg, 15_000, 400_000, 3, 4, tweak_ascii);
+    // every ASCII letter, digit and bit-5 punctuation pair through the match-time fold (the ASCII
+    // entry points have a fold of their own): backreferences forwards and in a lookbehind
+    for c in (b'!'..=b'~').map(|b| b as char) {
+        let lit = if c.is_ascii_alphanumeric() { c.to_string() } else if c == '-' { "-".to_string() } else { format!("\\{}", c) };
+        for fl in ["i", "iu", "iv"] {
+            // (identity escapes of non-syntax punctuation are invalid under u/v: those simply do not compile)
+            spec.fixed.push((format!("({})\\1", lit), Flags::from_str(fl)));
+            spec.fixed.push((format!("(?<=({}))\\1", lit), Flags::from_str(fl)));
+        }
+    }
     let opts = DriveOpts { budget: if cfg.quick() { 200 } else { 500 }, n_long: 4, n_plant: 3, ascii_only: true, sample_every: 299 };
     drive(&C13, cfg, rep, &spec, &opts);
 }
